@@ -21,6 +21,7 @@ func cmdFanout(args []string) {
 	batches := fs.Int("batches", 14, "batches per history")
 	servers := fs.Int("servers", 3, "number of servers")
 	maxShard := fs.Int64("maxshard", 4, "per-shard point maximum")
+	mux := fs.Int("mux", 0, "before each history: the fresh-connection probe on a collection of this many points")
 	soak := fs.Int("soak-ms", 0, "after each history: small update requests back to back for this many milliseconds")
 	wide := fs.Bool("wide", false, "90 ids, update requests of 40-100 points")
 	kill := fs.Bool("kill", false, "the last server is a child process that is killed in the middle of the history")
@@ -33,7 +34,7 @@ func cmdFanout(args []string) {
 	defer tw.Close()
 	exe, _ := os.Executable()
 	for h := 0; h < *hist; h++ {
-		o := clusterd.FanOpts{Servers: *servers, MaxShard: *maxShard, Batches: *batches, KillOne: *kill, Exe: exe, KillAfter: *batches / 2, Wide: *wide, Soak: time.Duration(*soak) * time.Millisecond}
+		o := clusterd.FanOpts{Servers: *servers, MaxShard: *maxShard, Batches: *batches, KillOne: *kill, Exe: exe, KillAfter: *batches / 2, Wide: *wide, Soak: time.Duration(*soak) * time.Millisecond, Mux: *mux}
 		if err := clusterd.RunFanout(h, *seed*1000+int64(h), *dir, tw, o); err != nil {
 			fmt.Fprintln(os.Stderr, "driver error:", err)
 			os.Exit(2)
